@@ -85,14 +85,16 @@ Definition dict_get (d : dict) (s : bytes) : option (option uatom) :=
   match find (fun x => beq (fst x) s) d with Some (_, r) => Some r | None => None end.
 Definition ued := list (bytes * uatom).           (* Atoms with the string they were entered as *)
 
-(* Add: duplicate string -> error; unparsable -> error *)
+(* Add: a string already entered is kept once; unparsable -> error.  Remove: by string *)
 Definition ued_add (d : dict) (s : bytes) (u : ued) : res ued :=
-  if memb s (map fst u) then RFailed
+  if memb s (map fst u) then ROk u
   else match dict_get d s with
        | Some (Some a) => ROk (u ++ [(s, a)])
        | Some None => RFailed
        | None => RFailed           (* string outside the dictionary: excluded by wf *)
        end.
+
+Definition ued_remove (s : bytes) (u : ued) : ued := filter (fun x => negb (beq (fst x) s)) u.
 
 Section Read.
 Variable fs : pfs.
@@ -106,7 +108,12 @@ Fixpoint read_packages (lines : list bytes) (u : ued) : res ued :=
     match l with
     | c :: a => if Nat.ltb 2 (length l) && Ascii.eqb c (nb 42)
                 then match ued_add d a u with ROk u' => read_packages r u' | e => e end
-                else read_packages r u
+                else match a with
+                     | c2 :: a2 => if Nat.ltb 3 (length l) && Ascii.eqb c (nb 45) && Ascii.eqb c2 (nb 42)
+                                   then read_packages r (ued_remove a2 u)
+                                   else read_packages r u
+                     | [] => read_packages r u
+                     end
     | [] => read_packages r u
     end
   end.
@@ -118,9 +125,7 @@ Fixpoint read_dir (fuel : nat) (dir : bytes) (u : ued) : res ued :=
   | S f =>
     if negb (is_dir fs dir) then RFailed
     else
-      let r1 := match packages_of fs dir with Some ls => read_packages ls u | None => ROk u end in
-      match r1 with
-      | ROk u1 =>
+      let r1 :=
         match parent_of fs dir with
         | Some ls =>
           (fix parents (ls : list bytes) (ppath : bytes) (u : ued) {struct ls} : res ued :=
@@ -138,9 +143,11 @@ Fixpoint read_dir (fuel : nat) (dir : bytes) (u : ued) : res ued :=
                  | ROk u' => parents r pp u'
                  | e => e
                  end
-             end) ls dir u1
-        | None => ROk u1
-        end
+             end) ls dir u
+        | None => ROk u
+        end in
+      match r1 with
+      | ROk u1 => match packages_of fs dir with Some ls => read_packages ls u1 | None => ROk u1 end
       | e => e
       end
   end.
